@@ -128,6 +128,21 @@ Definition delta_decode_block32 (z : list N) (prev : N) : option (list N * N) :=
   | Some (ds, c) => Some (psum32 prev ds, c)
   end.
 
+(* list lengths computed with an accumulator: `ptr - dst` of the C; same value
+   as N.of_nat (length l) / length l (BP128Lemmas.nlen_eq, len_acc_eq) but
+   tail-recursive, so the extracted model handles megabyte-sized encodings *)
+Fixpoint nlen_acc (l : list N) (acc : N) : N :=
+  match l with
+  | [] => acc
+  | _ :: t => nlen_acc t (N.succ acc)
+  end.
+Definition nlen (l : list N) : N := nlen_acc l 0.
+Fixpoint len_acc (l : list N) (acc : nat) : nat :=
+  match l with
+  | [] => acc
+  | _ :: t => len_acc t (S acc)
+  end.
+
 (* ------------------------------------------------------------------ *)
 (* metadata *)
 Record meta := mkmeta {
@@ -150,11 +165,13 @@ Definition read_header (z : list N) : bool * N * N * list N :=
 (* ------------------------------------------------------------------ *)
 (* varintBP128Encode32 *)
 
-(* for (b = 0; b < fullBlocks; b++) ... *)
-Fixpoint enc32_full (nblk : nat) (vs : list N) : list N :=
+(* for (b = 0; b < fullBlocks; b++) ... ; `after` = the bytes written after the
+   loop (the partial block), threaded through so that no append runs over the
+   whole output *)
+Fixpoint enc32_full (nblk : nat) (vs : list N) (after : list N) : list N :=
   match nblk with
-  | O => []
-  | S k => encode_block32 (firstn 128%nat vs) ++ enc32_full k (skipn 128%nat vs)
+  | O => after
+  | S k => encode_block32 (firstn 128%nat vs) ++ enc32_full k (skipn 128%nat vs) after
   end.
 
 (* if (ptr[0] > maxBitWidth) maxBitWidth = ptr[0] *)
@@ -171,11 +188,11 @@ Definition encode32 (vs : list N) : list N :=
   else
     let fb := count / 128 in
     let r := count mod 128 in
-    enc32_full (N.to_nat fb) vs ++
-    (if 0 <? r then
-       let padded := skipn (N.to_nat (fb * 128)) vs in
-       partial_block (max_bit_width padded) r padded
-     else []).
+    enc32_full (N.to_nat fb) vs
+      (if 0 <? r then
+         let padded := skipn (N.to_nat (fb * 128)) vs in
+         partial_block (max_bit_width padded) r padded
+       else []).
 
 Definition encode32_meta (vs : list N) : meta :=
   let count := N.of_nat (length vs) in
@@ -188,7 +205,7 @@ Definition encode32_meta (vs : list N) : meta :=
                 let bw := max_bit_width (skipn (N.to_nat (fb * 128)) vs) in
                 if m1 <? N.land bw 127 then N.land bw 127 else m1
               else m1 in
-    mkmeta count (fb + (if 0 <? r then 1 else 0)) (N.of_nat (length (encode32 vs)))
+    mkmeta count (fb + (if 0 <? r then 1 else 0)) (nlen (encode32 vs))
            (if 0 <? r then r else 128) m2.
 
 (* varintBP128Decode32: the while loop; room = maxCount - decoded *)
@@ -222,12 +239,13 @@ Definition decode32 (z : list N) (cap : N) : option (list N) :=
 (* ------------------------------------------------------------------ *)
 (* varintBP128DeltaEncode32 *)
 
-(* while (remaining >= 128): nblk = remaining / 128 iterations *)
-Fixpoint denc32_full (nblk : nat) (prev : N) (vs : list N) : list N :=
+(* while (remaining >= 128): nblk = remaining / 128 iterations; `after` = the
+   bytes written after the loop *)
+Fixpoint denc32_full (nblk : nat) (prev : N) (vs : list N) (after : list N) : list N :=
   match nblk with
-  | O => []
+  | O => after
   | S k => delta_encode_block32 (firstn 128%nat vs) prev ++
-           denc32_full k (nth 127%nat vs 0) (skipn 128%nat vs)
+           denc32_full k (nth 127%nat vs 0) (skipn 128%nat vs) after
   end.
 
 (* prevValue after the loop *)
@@ -251,11 +269,12 @@ Definition delta_encode32 (vs : list N) : list N :=
     let remaining0 := N.of_nat (length rest) in
     let nblk := N.to_nat (remaining0 / 128) in
     let r := remaining0 mod 128 in
-    tagged_put64 v0 ++ denc32_full nblk v0 rest ++
-    (if 0 <? r then
-       let ds := deltas32 (denc32_prev nblk v0 rest) (skipn (128 * nblk)%nat rest) in
-       partial_block (max_bit_width ds) r ds
-     else [])
+    tagged_put64 v0 ++
+    denc32_full nblk v0 rest
+      (if 0 <? r then
+         let ds := deltas32 (denc32_prev nblk v0 rest) (skipn (128 * nblk)%nat rest) in
+         partial_block (max_bit_width ds) r ds
+       else [])
   end.
 
 Definition delta_encode32_meta (vs : list N) : meta :=
@@ -272,7 +291,7 @@ Definition delta_encode32_meta (vs : list N) : meta :=
                 if m1 <? bw then bw else m1
               else m1 in
     mkmeta (N.of_nat (length vs)) (remaining0 / 128 + (if 0 <? r then 1 else 0))
-           (N.of_nat (length (delta_encode32 vs)))
+           (nlen (delta_encode32 vs))
            (if 0 <? r then r else 128) m2
   end.
 
@@ -358,7 +377,7 @@ Definition encode64_meta (vs : list N) : meta :=
   if count =? 0 then meta_zero
   else
     let l := count mod 128 in
-    mkmeta count ((count + 128 - 1) / 128) (N.of_nat (length (encode64 vs)))
+    mkmeta count ((count + 128 - 1) / 128) (nlen (encode64 vs))
            (if l =? 0 then 128 else l) (enc64_maxbw (blocks_fuel vs) vs 0).
 
 (* varintBP128Decode64: the while loop; room = count - decoded *)
@@ -386,7 +405,7 @@ Fixpoint dec64_loop (fuel : nat) (z : list N) (room : N) : option (list N) :=
 Definition decode64 (z : list N) (cap : N) : option (list N) :=
   let r := tagged_get64 z in
   let count := if cap <? snd r then cap else snd r in
-  dec64_loop (N.to_nat (count / 128) + length z + 2)%nat (skipn (N.to_nat (fst r)) z) count.
+  dec64_loop (N.to_nat (count / 128) + 2 + len_acc z 0)%nat (skipn (N.to_nat (fst r)) z) count.
 
 (* ------------------------------------------------------------------ *)
 (* varintBP128DeltaEncode64 *)
@@ -446,7 +465,7 @@ Definition delta_encode64_meta (vs : list N) : meta :=
   | v0 :: rest =>
     let count := N.of_nat (length vs) in
     let l := (count - 1) mod 128 in
-    mkmeta count ((count + 128 - 2) / 128) (N.of_nat (length (delta_encode64 vs)))
+    mkmeta count ((count + 128 - 2) / 128) (nlen (delta_encode64 vs))
            (if l =? 0 then 128 else l) (denc64_maxbw (blocks_fuel rest) v0 rest 0)
   end.
 
